@@ -78,6 +78,9 @@ func loadCfg(repo, tier string, extraEnv []string, tags []string) (*Ctx, error) 
 func loadOverlay(repo, tier string, extraEnv []string, tags []string, overlay map[string][]byte) (*Ctx, error) {
 	env := append(os.Environ(), "GOFLAGS=-mod=mod", "GOPROXY=off", "GOSUMDB=off", "GOTOOLCHAIN=local", "GOWORK=off")
 	env = append(env, extraEnv...)
+	// extract-function refactorings are undone in the checker's view first (inline.go), then locals
+	// are renamed back to their recorded names (alpha.go)
+	overlay, ii := inlineOverlay(repo, env, tags, overlay)
 	merged, ai, srcPkgs := alphaOverlay(repo, env, tags, overlay)
 	c, err := loadRaw(repo, tier, env, extraEnv, tags, merged)
 	if srcPkgs != nil {
@@ -94,6 +97,7 @@ func loadOverlay(repo, tier string, extraEnv []string, tags []string, overlay ma
 		return nil, err
 	}
 	c.loadInfo["alpha_normalisation"] = ai
+	c.loadInfo["helper_inlining"] = ii
 	return c, nil
 }
 
